@@ -61,4 +61,16 @@ PROPS = {
         "sponges; the driver runs the Lean model and 64 Lean spec sponges; the line compares outputs and both agreement flags",
    assumptions=["Go arrays are copied by value (Clone/Reset)"],
    trusted_base=["iota.go single-lane curl used as a second reference in the harness only"]),
+ "C09": P("C09", tie="Iota.Tie.C03",
+   rule="ops: bip39.seed (raw passphrase to the implementation, its x/text NFKD form to the Lean PBKDF2), bip39.parse (fields and parse∘print∘parse), hash.sha512. Valid mnemonics of both lists x passphrases "
+        "(empty, long, composed/decomposed pairs, compatibility characters, full-width, Hangul, invalid UTF-8), invalid mnemonics (no seed); parser: every IsSpace code point and several look-alike non-spaces as separator, "
+        "leading/trailing/multiple, truncated encodings, random mixes of words, spaces and non-spaces",
+   assumptions=["x/text NFKD satisfies: nfkd(join(fields(nfkd s))) = join(fields(nfkd s))", "PBKDF2/HMAC/SHA-512 abstract in the theorems"],
+   trusted_base=["Lean PBKDF2-HMAC-SHA512 oracle in the driver (validated against the Go implementation by this run)", "byte-level model of strings.Fields (white-space table)"]),
+ "C20": P("C20", tie="Iota.Tie.Curl",
+   rule="ops: curl.transform on arbitrary planes (all 25 combinations of plane shapes {random, all-zero, all-one, single bit, sparse}, i.e. including invalid (0,0) encodings, then random states): the harness runs the build's "
+        "transform (assembly on amd64) and transformGeneric inside guard words (stray writes are reported) and requires them equal; the driver runs the Lean model of transformGeneric AND the Lean interpreter of the extracted assembly "
+        "and requires them equal; then both sides are compared. curl.hist: whole-sponge runs on top of the build's transform",
+   assumptions=["instruction semantics of the Go-assembler subset as written in Iota/Model/AsmSem.lean", "the Go assembler/linker/CPU"],
+   trusted_base=["Iota/Model/AsmSem.lean (207 lines) is the specification of the machine; it is exercised against the real CPU by the correspondence run"]),
 }
